@@ -14,7 +14,7 @@ pub const CAP: usize = 3;
 #[derive(Clone, Copy, PartialEq, Eq, Debug)] pub struct OffsetCheck { pub ct: bool, pub ty: Ident, pub field: Ident, pub offset: usize }
 #[derive(Clone, Copy, PartialEq, Eq, Debug)] pub struct AlignCheck { pub ct: bool, pub expr: Expr, pub align: usize }
 #[derive(Clone, Copy, Debug)]
-pub struct Block { pub ct: bool, pub named_fn: bool, pub uninit: bool, pub size_expr: Expr, pub size: usize, pub align: AlignCheck, pub offs: [Option<OffsetCheck>; CAP], pub n_offs: usize }
+pub struct Block { pub ct: bool, pub named_fn: bool, pub uninit: bool, pub size_expr: Expr, pub size: usize, pub has_align: bool, pub align: AlignCheck, pub offs: [Option<OffsetCheck>; CAP], pub n_offs: usize }
 #[derive(Clone, Copy, Debug)]
 pub enum TokenStream { Expr(Expr, Ident), Align(AlignCheck), Offset(OffsetCheck), Uninit, Block(Block) }
 impl TokenStream {
@@ -40,16 +40,28 @@ macro_rules! quote {
     (const UNINIT : $($t:tt)*) => { TokenStream::Uninit };
     (# [ $($al:tt)* ] const _ : () = { [ # $se:ident ] [ # $sx:ident - # $s:ident ] ; # $a:ident # ( # $v:ident ) * } ;) => {{
         let (o, n) = offs(&$v);
-        TokenStream::Block(Block { ct: true, named_fn: false, uninit: false, size_expr: $sx.expr(), size: $s, align: $a.align(), offs: o, n_offs: n }) }};
+        TokenStream::Block(Block { ct: true, named_fn: false, uninit: false, size_expr: $sx.expr(), size: $s, has_align: true, align: $a.align(), offs: o, n_offs: n }) }};
     (# [ test ] fn # $n:ident () { # $u:ident assert_eq ! ( # $sx:ident , # $s:ident , # $se:ident ) ; # $a:ident # ( # $v:ident ) * }) => {{
         let (o, n) = offs(&$v);
-        TokenStream::Block(Block { ct: false, named_fn: $n.is_some(), uninit: $u.is_some(), size_expr: $sx.expr(), size: $s, align: $a.align(), offs: o, n_offs: n }) }};
+        TokenStream::Block(Block { ct: false, named_fn: $n.is_some(), uninit: $u.is_some(), size_expr: $sx.expr(), size: $s, has_align: true, align: $a.align(), offs: o, n_offs: n }) }};
     // template instantiations: size and alignment only
     (# [ $($al:tt)* ] const _ : () = { [ # $se:ident ] [ # $sx:ident - # $s:ident ] ; [ # $ae:ident ] [ # $ax:ident - # $a:ident ] ; } ;) => {
-        TokenStream::Block(Block { ct: true, named_fn: false, uninit: false, size_expr: $sx.expr(), size: $s, align: AlignCheck { ct: true, expr: $ax.expr(), align: $a }, offs: [None; CAP], n_offs: 0 }) };
+        TokenStream::Block(Block { ct: true, named_fn: false, uninit: false, size_expr: $sx.expr(), size: $s, has_align: true, align: AlignCheck { ct: true, expr: $ax.expr(), align: $a }, offs: [None; CAP], n_offs: 0 }) };
     (# [ test ] fn # $n:ident () { assert_eq ! ( # $sx:ident , # $s:ident , # $se:ident ) ; assert_eq ! ( # $ax:ident , # $a:ident , # $ae:ident ) ; }) => {
-        TokenStream::Block(Block { ct: false, named_fn: $n.is_some(), uninit: false, size_expr: $sx.expr(), size: $s, align: AlignCheck { ct: false, expr: $ax.expr(), align: $a }, offs: [None; CAP], n_offs: 0 }) };
+        TokenStream::Block(Block { ct: false, named_fn: $n.is_some(), uninit: false, size_expr: $sx.expr(), size: $s, has_align: true, align: AlignCheck { ct: false, expr: $ax.expr(), align: $a }, offs: [None; CAP], n_offs: 0 }) };
+    // tolerant arms (a block that lacks its alignment assertion must be judged, not fail to build): has_align = false
+    (# [ $($al:tt)* ] const _ : () = { [ # $se:ident ] [ # $sx:ident - # $s:ident ] ; # ( # $v:ident ) * } ;) => {{
+        let (o, n) = offs(&$v);
+        TokenStream::Block(Block { ct: true, named_fn: false, uninit: false, size_expr: $sx.expr(), size: $s, has_align: false, align: NOALIGN, offs: o, n_offs: n }) }};
+    (# [ test ] fn # $n:ident () { # $u:ident assert_eq ! ( # $sx:ident , # $s:ident , # $se:ident ) ; # ( # $v:ident ) * }) => {{
+        let (o, n) = offs(&$v);
+        TokenStream::Block(Block { ct: false, named_fn: $n.is_some(), uninit: $u.is_some(), size_expr: $sx.expr(), size: $s, has_align: false, align: NOALIGN, offs: o, n_offs: n }) }};
+    (# [ $($al:tt)* ] const _ : () = { [ # $se:ident ] [ # $sx:ident - # $s:ident ] ; } ;) => {
+        TokenStream::Block(Block { ct: true, named_fn: false, uninit: false, size_expr: $sx.expr(), size: $s, has_align: false, align: NOALIGN, offs: [None; CAP], n_offs: 0 }) };
+    (# [ test ] fn # $n:ident () { assert_eq ! ( # $sx:ident , # $s:ident , # $se:ident ) ; }) => {
+        TokenStream::Block(Block { ct: false, named_fn: $n.is_some(), uninit: false, size_expr: $sx.expr(), size: $s, has_align: false, align: NOALIGN, offs: [None; CAP], n_offs: 0 }) };
 }
+const NOALIGN: AlignCheck = AlignCheck { ct: false, expr: Expr::SizeOf, align: 0 };
 #[derive(Clone, Copy)] pub struct Layout { pub size: usize, pub align: usize }
 pub struct Features { pub offset_of: bool }
 pub struct Options { pub layout_tests: bool, pub f: Features } impl Options { pub fn rust_features(&self) -> &Features { &self.f } }
@@ -118,6 +130,7 @@ mod proofs {
         let b = match result.a[0].unwrap() { TokenStream::Block(b) => b, _ => { assert!(false, "not an assertion block"); return; } };
         assert!(b.ct == ct && b.named_fn == !ct, "const block vs #[test] fn does not follow the offset_of feature");
         assert!(b.size_expr == Expr::SizeOf && b.size == l.size, "asserted size is not the layout's size");
+        assert!(b.has_align, "a concrete record has no alignment assertion");
         assert!(b.align.expr == Expr::AlignOf && b.align.align == l.align && b.align.ct == ct, "asserted alignment is not the layout's alignment");
         // every named non-bit-field member with a known offset, in order; none for opaque blobs
         let mut k = 0; let mut i = 0;
@@ -150,6 +163,7 @@ mod proofs {
         let ct = ctx.o.f.offset_of;
         assert!(b.ct == ct && b.named_fn == !ct);
         assert!(b.size_expr == Expr::SizeOf && b.size == l.size, "asserted size is not the layout's size");
+        assert!(b.has_align, "a concrete template instantiation has no alignment assertion");
         assert!(b.align.expr == Expr::AlignOf && b.align.align == l.align, "asserted alignment is not the layout's alignment");
         kani::cover!(ct, "const block"); kani::cover!(!ct, "test fn");
     }
